@@ -22,6 +22,9 @@ def obligations(tier):
                           funcs=(CH_ + "Chart.from_file",), bounds="two extra sections: 1 of 48 names x 3 second names, 6 orders"))
         obs.append(Ob("C06.route.allperms", "CH", "harness.h_chart", "route", 1500, {"VF_NSEC": 1, "VF_NPARTS": 48, "VF_PART": 0, "VF_ALLPERMS": 1},
                       funcs=(CH_ + "Chart.from_file",), bounds="all 24 orders of 4 sections for one track name"))
+    for nm in ([3] if tier == "quick" else [3, 4]):
+        obs.append(Ob(f"C06.route_multi.{nm}", "CH", "harness.h_chart", "route_multi", 1500, {"VF_NMULTI": nm}, funcs=(CH_ + "Chart.from_file",),
+                      bounds=f"{nm} instrument sections (two instruments, several difficulties) in every relative order and 4 placements of the required sections"))
     obs.append(Ob("C06.real_parsers", "CH", "harness.h_chart", "route_real", 600, funcs=(CH_ + "Chart.from_file", "chartparse.instrument.InstrumentTrack.from_chart_lines"),
                   bounds="real section parsers on a concrete chart, symbolic header choice / order / newline style"))
     return obs
